@@ -362,5 +362,7 @@ def run(repo: Repo, tier: str) -> Report:
     lcchk = [st for st in ast.walk(m) if isinstance(st, ast.If) and norm_stmt(st.test) == "p is None" and st.body and isinstance(st.body[-1], ast.Raise)
              and "ValueError" in ast.unparse(st.body[-1])]
     rep.ob("R-VALIDATE", AFILE, "WhittakerSmoother.whitsvc", "lc without p raises ValueError", len(lcchk) == 1, "", "lc requires p")
+    from ..rules import r_truthy
+    r_truthy(rep, repo, "WhittakerSmoother", "whitsvc", ["nodata"], "0 is a legitimate nodata value (it is the one the test-suite uses); a truth test silently replaces or drops it")
     rep.floor("C04 obligations", len(rep.obls), 100)
     return rep
